@@ -103,12 +103,18 @@ func (p *FloatingIPPlugin) getSubnet(pod *corev1.Pod) (sets.String, error) {
 				unallocatedIPRange = append(unallocatedIPRange, ipranges[i])
 			} else {
 				ips = append(ips, ipInfos[i].IP.String())
-				if allocatedSubnets.Len() == 0 {
+				if len(ips) == 1 {
 					allocatedSubnets.Insert(ipInfos[i].NodeSubnets.UnsortedList()...)
 				} else {
 					allocatedSubnets = allocatedSubnets.Intersection(ipInfos[i].NodeSubnets)
 				}
 			}
+		}
+		if len(ips) > 0 && allocatedSubnets.Len() == 0 {
+			// the allocated ips have no node subnet in common, no node fits however many ips are left in other ranges
+			glog.V(3).Infof("%s already have allocated ips %v which are not routable from a common subnet",
+				keyObj.KeyInDB, ips)
+			return allocatedSubnets, nil
 		}
 		if len(unallocatedIPRange) == 0 {
 			glog.V(3).Infof("%s already have allocated ips %v with intersection subnets %v",
